@@ -83,6 +83,18 @@ CHECKS = {
         TRUSTED,
         "DESIGN.md 4/C15",
     ),
+    "C09": (
+        "model_checking",
+        "spec/Averaging.tla defines Average and the permitted half-map splits over weighted one-hot sub-volumes in exact "
+        "rational arithmetic; TLC proves the split law n*avg = |H0|*h0 + |H1|*h1 over ALL bipartitions for molecule counts "
+        "1..6 and that the acceptor admits exactly the permitted splits, and enumerates loader kinds (single/batch/mock/"
+        "group), coinciding markers, chunkings, n_set and seeds. Every case is run on real loaders; average, average_split "
+        "(twice, for reproducibility), grouped average and grouped split are recorded as sparse rational images and judged "
+        "by TLC (Trace_Avg.tla): mean, disjointness, exhaustiveness, non-emptiness, reproducibility.",
+        "TLA+ spec Averaging.tla/AvgOps.tla model-checked by TLC; events recorded on real loaders validated by TLC (Trace_Avg.tla)",
+        TRUSTED + "; sub-volumes are weighted one-hot vectors by construction (verified on every real load)",
+        "DESIGN.md 4/C09",
+    ),
 }
 
 REASON_TODO = "check not built yet in this round (planned: see DESIGN.md section 4)"
